@@ -209,3 +209,48 @@ fn u_arity_lambda() {
     kani::cover!(np == 0, "reach-nullary");
     std::mem::forget(f);
 }
+
+// ---- U-DEPTH (lambdas): an anonymous nullary lambda with an empty captured scope - the smallest lambda, so that the
+// binding loop and the heap are not involved (with parameters FunctionDef::call is intractable, see the DESIGN notes).
+#[kani::proof]
+#[kani::unwind(4)]
+#[kani::stub(alloc::fmt::format, crate::verif_common::fmt_stub)]
+#[kani::stub(std::time::Instant::now, crate::verif_common::instant_stub)]
+#[kani::stub(crate::functions::BuiltInFunction::call, probe_builtin)]
+#[kani::stub(crate::expressions::evaluate_ast, probe_eval)]
+#[kani::stub(crate::functions::FunctionDef::get_name, name_stub)]
+fn u_depth_lambda() {
+    let n: u8 = kani::any();
+    match n % 2 {
+        0 => depth_lambda_case(0),
+        _ => depth_lambda_case(1),
+    }
+}
+
+fn depth_lambda_case(n: usize) {
+    let def = lambda(&[0, 0, 0], 0);
+    let f = FunctionDef::Lambda(def);
+    let heap = Rc::new(RefCell::new(Heap::verif_empty()));
+    let env = Rc::new(Environment::new());
+    let depth: usize = kani::any();
+    let r = f.call(Value::Null, args_vec(n), Rc::clone(&heap), Rc::clone(&env), depth, "");
+    let calls = unsafe { EVAL_CALLS };
+    if n != 0 {
+        assert!(r.is_err() && calls == 0, "U-DEPTH#lambda:rejected-argument-count-is-an-error-before-the-body-runs");
+    } else if depth > 1000 {
+        assert!(r.is_err() && calls == 0, "U-DEPTH#lambda:depth-over-1000-is-an-error-before-the-body-runs");
+    } else {
+        assert!(calls == 1, "U-DEPTH#lambda:body-evaluated-exactly-once");
+        assert!(unsafe { EVAL_DEPTH } == depth + 1, "U-DEPTH#lambda:body-receives-depth-plus-one");
+        match (&r, &eval_ret()) {
+            (Ok(v), Some(w)) => assert!(same_value(v, w), "U-DEPTH#lambda:result-is-the-body-result"),
+            (Err(_), None) => {}
+            _ => assert!(false, "U-DEPTH#lambda:success-and-failure-propagate"),
+        }
+    }
+    assert!(unsafe { BUILTIN_CALLS } == 0, "U-DEPTH#lambda:no-builtin-entered");
+    kani::cover!(n == 0 && depth == 1000 && calls == 1, "reach-depth-1000-still-runs");
+    kani::cover!(n == 0 && depth == 1001 && r.is_err(), "reach-depth-1001-fails");
+    std::mem::forget(r); std::mem::forget(f); std::mem::forget(heap); std::mem::forget(env);
+    std::mem::forget(take_eval_env());
+}
